@@ -410,6 +410,14 @@ def c17(p, tier, replay):
             if f["check"].startswith("tool."):
                 raise ToolError("harness: %s" % f["check"])
             v.report(f["check"], {"t": rec["t"]}, "%s :: %s" % (vlib.show(rec["t"]), f["detail"]), rec)
+    # the trait's default introspect_len and arrays at large sizes (beyond what a TLC value can hold)
+    big = os.path.join(WORK, "c17_%s.big" % tier)
+    vlib.run_bin(intro_bin, ["lens", big])
+    for line in open(big):
+        rr = json.loads(line)
+        lens += 1
+        for f in rr["fails"]:
+            v.report(f["check"], {"t": None}, f["detail"], rr)
     cov = {"states": stats["distinct"], "transitions": stats["generated"], "traces_validated_against_impl": nav,
            "evaluations": nav + lens, "distinct_nontrivial": nav + len(nontriv),
            "rule": "navigation: one behaviour per distinct (tree, limit, path, result) state of Introspect.tla reached by command "
